@@ -2006,6 +2006,116 @@ theorem expectDiaDm_abs (op state : Dia R) (hop : op.SquareWF) (hst : state.Squa
   simp only [e1, e2, e3]
 end diaExpectThm
 
+section csrExpectThm
+variable {R : Type} [CommRing R]
+
+/-- a ket in CSR storage: every row holds at most one entry, in column 0 -/
+def CSR.KetWF (m : CSR R) : Prop := ∀ row ∈ m.r, row.length ≤ 1 ∧ ∀ p ∈ row, p.1 = 0
+
+theorem ket_row_abs (row : Row R) (h : row.length ≤ 1 ∧ ∀ p ∈ row, p.1 = 0) :
+    rowAbs row 0 = match rowHead? row with | none => 0 | some v => v := by
+  match row, h with
+  | [], _ => simp [rowAbs, rowHead?]
+  | [p], h =>
+    obtain ⟨c, v⟩ := p
+    have : c = 0 := h.2 (c, v) List.mem_cons_self
+    subst this
+    simp [rowAbs, rowHead?]
+  | _ :: _ :: _, h => simp at h
+
+theorem CSR.ket_abs (m : CSR R) (h : m.KetWF) (i : Nat) :
+    m.abs i 0 = match rowHead? (m.r.getD i []) with | none => 0 | some v => v := by
+  unfold CSR.abs
+  by_cases hi : i < m.r.length
+  · apply ket_row_abs
+    have hget : m.r.getD i [] = m.r[i] := by simp [List.getD_eq_getElem?_getD, hi]
+    rw [hget]
+    exact h _ (List.getElem_mem hi)
+  · have : m.r.getD i [] = [] := by
+      simp [List.getD_eq_getElem?_getD, List.getElem?_eq_none (by omega : m.r.length ≤ i)]
+    rw [this]; simp [rowAbs, rowHead?]
+
+theorem rowFirst_eq_rowAbs (row : Row R) (h : (row.map (·.1)).Nodup) (j : Nat) : rowFirst row j = rowAbs row j := by
+  induction row with
+  | nil => simp [rowFirst, rowAbs]
+  | cons p row ih =>
+    obtain ⟨c, v⟩ := p
+    rw [List.map_cons, List.nodup_cons] at h
+    by_cases hc : c = j
+    · subst hc
+      have : rowAbs row c = 0 := rowAbs_not_mem row c h.1
+      simp [rowFirst, rowAbs, this]
+    · have hb : ((c, v).1 == j) = false := by simpa using hc
+      have := ih h.2
+      unfold rowFirst at this ⊢
+      rw [List.find?_cons, hb]
+      simp only [rowAbs, hc, if_false, zero_add]
+      exact this
+
+/-- the sum over the stored entries of an operator row against a ket read through its row heads -/
+theorem op_row_ket_sum (oprow : Row R) (state : CSR R) (hs : state.KetWF) (n : Nat) (h : ∀ p ∈ oprow, p.1 < n) :
+    (oprow.map (ketTimes state)).sum
+      = ((List.range n).map fun c => rowAbs oprow c * state.abs c 0).sum := by
+  rw [sum_rowAbs_mul oprow n (fun c => state.abs c 0) h]
+  congr 1
+  apply List.map_congr_left
+  intro p _
+  unfold ketTimes
+  rw [CSR.ket_abs state hs p.1]
+  cases rowHead? (state.r.getD p.1 []) with
+  | none => simp
+  | some w => rfl
+
+/-- **`expect_csr` on a ket is `Σ_r conj(ψ_r) Σ_c op_rc ψ_c`**, whatever the order of (and duplicates among) the
+stored entries of the operator's rows -/
+theorem expectCsrKet_abs (conj : R → R) (hc : conj 0 = 0) (op state : CSR R) (hs : state.KetWF)
+    (hop : ∀ i, ∀ p ∈ op.r.getD i [], p.1 < state.rows) :
+    expectCsrKet conj op state
+      = ((List.range state.rows).map fun r => conj (state.abs r 0) *
+          ((List.range state.rows).map fun c => op.abs r c * state.abs c 0).sum).sum := by
+  unfold expectCsrKet
+  congr 1
+  apply List.map_congr_left
+  intro row _
+  rw [CSR.ket_abs state hs row]
+  cases hh : rowHead? (state.r.getD row []) with
+  | none => simp [hc]
+  | some h =>
+    simp only []
+    rw [op_row_ket_sum (op.r.getD row []) state hs state.rows (hop row)]
+    rfl
+
+/-- **`expect_csr` on a density matrix is `tr(op · state)`**: operator rows in any order with duplicates summed, state
+rows holding each column once -/
+theorem expectCsrDm_abs (op state : CSR R) (hst : ∀ i, ((state.r.getD i []).map (·.1)).Nodup)
+    (hop : ∀ i, ∀ p ∈ op.r.getD i [], p.1 < op.rows) :
+    expectCsrDm op state
+      = ((List.range op.rows).map fun r => ((List.range op.rows).map fun c => op.abs r c * state.abs c r).sum).sum := by
+  unfold expectCsrDm
+  congr 1
+  apply List.map_congr_left
+  intro row _
+  unfold CSR.abs
+  rw [sum_rowAbs_mul (op.r.getD row []) op.rows (fun c => rowAbs (state.r.getD c []) row) (hop row)]
+  congr 1
+  apply List.map_congr_left
+  intro p _
+  rw [rowFirst_eq_rowAbs _ (hst p.1)]
+
+/-- **`expect_super_csr` is the trace of the operator `op · state` un-stacked**: the rows k(n+1) of the superoperator
+against the column-stacked state -/
+theorem expectSuperCsr_abs (n : Nat) (op state : CSR R) (hs : state.KetWF)
+    (hop : ∀ i, ∀ p ∈ op.r.getD i [], p.1 < n * n) :
+    expectSuperCsr n op state
+      = ((List.range n).map fun k => ((List.range (n * n)).map fun c => op.abs (k * (n + 1)) c * state.abs c 0).sum).sum := by
+  unfold expectSuperCsr
+  congr 1
+  apply List.map_congr_left
+  intro k _
+  rw [op_row_ket_sum (op.r.getD (k * (n + 1)) []) state hs (n * n) (hop _)]
+  rfl
+end csrExpectThm
+
 /-- **a specialisation constructed by inserting conversions computes the same operation**: if the
 registered implementation refines `f` on the meanings and every converter preserves the meaning, so
 does the constructed one — for every requested combination of operand and output formats -/
